@@ -53,9 +53,9 @@ void suite_wire(int tier) {
         if (op_enc(c, legacy, d, len, &s) == 0) {
             wire_oracle(&s, d, len);
             /* the built-in codes have a fixed word size: a caller-supplied w must not change the format */
-            if ((c.be == 3 || c.be == 6) && rnd(2)) {
+            if ((c.be == 3 || c.be == 6 || c.be == 0) && rnd(2)) {
                 static const int ws[] = { 8, 16, 32, 64, 4, 7, -1 };
-                struct ec_args a; memset(&a, 0, sizeof a); a.k = c.k; a.m = c.m; a.hd = c.hd; a.w = ws[rnd(7)];
+                struct ec_args a; memset(&a, 0, sizeof a); a.k = c.k; a.m = c.m; a.hd = c.hd; a.w = ws[rnd(c.be == 0 ? 3 : 7)];
                 a.ct = (ec_checksum_type_t)c.ct;
                 int d2 = liberasurecode_instance_create((ec_backend_id_t)c.be, &a);
                 if (d2 > 0) {
@@ -70,6 +70,9 @@ void suite_wire(int tier) {
                         if (!same) oracle_fail("C07", "fragments of be=%d (%d,%d,%d) len=%zu differ when the instance was created with w=%d (fragment length %llu vs %llu)", c.be, c.k, c.m, c.hd, len, a.w, (unsigned long long)fl, (unsigned long long)s.flen);
                         if (liberasurecode_get_fragment_size(d2, (int)len) + HDR != (int)fl) oracle_fail("C08", "fragment_size disagrees with encode for an instance created with w=%d", a.w);
                         if (liberasurecode_get_aligned_data_size(d2, len) != liberasurecode_get_aligned_data_size(s.desc, len)) oracle_fail("C08", "aligned_data_size depends on the w given at creation (w=%d) for a fixed-word-size code be=%d", a.w, c.be);
+                        if (len && (uint64_t)liberasurecode_get_aligned_data_size(d2, len) != (uint64_t)c.k * (fl - HDR)) oracle_fail("C08", "aligned_data_size(%zu)=%d is not k x the payload encode lays out (%llu) for an instance created with w=%d, be=%d", len, liberasurecode_get_aligned_data_size(d2, len), (unsigned long long)(fl - HDR), a.w, c.be);
+                        if (liberasurecode_get_minimum_encode_size(d2) != liberasurecode_get_aligned_data_size(d2, 1)) oracle_fail("C08", "minimum_encode_size != aligned_data_size(1) for an instance created with w=%d", a.w);
+                        if (liberasurecode_get_minimum_encode_size(d2) != liberasurecode_get_minimum_encode_size(s.desc)) oracle_fail("C08", "minimum_encode_size depends on the w given at creation (w=%d), be=%d", a.w, c.be);
                         liberasurecode_encode_cleanup(d2, ed, ep);
                     } else oracle_fail("C07", "encode failed (%d) on an instance created with w=%d", rc, a.w);
                     liberasurecode_instance_destroy(d2);
@@ -108,6 +111,7 @@ void suite_wire(int tier) {
 }
 
 /* ======================================================================= hdr (C09) */
+static void make_twin(unsigned char *f);
 static void consume_all(stripe_t *s, int fi, unsigned char *mut, int with_decode, int dest) {
     /* the three consuming APIs + validation on a stripe whose fragment fi is replaced by mut */
     cfg_t c = s->c;
@@ -182,6 +186,17 @@ void suite_hdr(int tier) {
             if (seal) reseal(mut);
             consume_all(&s, fi, mut, 1, dest);
             stat_add("hdr.magic_rewrite", 1);
+        }
+        /* a complete, self-consistent header in the opposite byte order (accepted by the header test and by the
+           metadata query): decode and reconstruct take host order only — at every position of the set */
+        for (int pos = 0; pos < s.n; pos++) {
+            if (!tier && pos > 1 && pos != s.n - 1 && pos != c.k && rnd(3)) continue;
+            unsigned char *tw = malloc(s.flen);
+            memcpy(tw, s.all[pos], s.flen); make_twin(tw);
+            consume_all(&s, pos, tw, 1, (pos + 1) % s.n);
+            if (pos) consume_all(&s, pos, tw, 1, 0);
+            free(tw);
+            stat_add("hdr.foreign_order_in_set", 1);
         }
         /* stored metadata crc: alternative crc, swapped, off by one */
         {
